@@ -180,8 +180,9 @@ func createRequestFormParam(openapi *openapi3.T, param definitions.FuncParam, op
 	propertySchemaRef := InterfaceToSchemaRef(openapi, param.TypeMeta.Name)
 	// Add the validation to the schema
 	BuildSchemaValidation(propertySchemaRef, param.Validator, param.TypeMeta.Name)
-	// Set the description on the property schema itself
-	if propertySchemaRef.Value != nil {
+	// Set the description on the property schema itself - but never through a reference,
+	// whose value is the shared component (OpenAPI 3.0 allows nothing next to a $ref)
+	if propertySchemaRef.Value != nil && propertySchemaRef.Ref == "" {
 		propertySchemaRef.Value.Description = param.Description
 	}
 	// Add the form parameter to the schema
